@@ -25,6 +25,11 @@
 //                   end-point arrays move the connate, critical and maximum nodes; oracles of c
 //                   in scaled saturation against a hysteresis-free manager with the same
 //                   end-points; forward and inverse saturation maps are mutual inverses (also in b).
+//   e  3-phase x eps: three-phase oil relperm model {default, STONE1, STONE1+STONE1EX, STONE2} x ENDSCALE
+//                   end-point sets (identity, SWL / SGL / SGU / critical saturations moved, vertical,
+//                   all) x two/three-point x {no hysteresis, Carlson}: public API on a 41-level triangle
+//                   against the cell's scaled two-phase curves, the scaled gas-oil end-points and the
+//                   closed form of each model with the cell's SWL.      replay: "e <base> <mode> <set> <model> <hyst>"
 // Case strings (replay):  "a <listsize> <idx> <partner> <nreg> <field> <es>", "a2 <phases> <listsize> <idx> <es>"
 //                         "b <base> <mode> <k>:<v>,<k>:<v>..."
 //                         "c <table> <model> <flag> <imb> <levels> <e,e,e...>"
@@ -1269,6 +1274,145 @@ static void partD(bool thorough) {
     }
 }
 
+// ============================================================ part e =======
+// three-phase oil relperm model x end-point scaling.  model: 0 default (ECLIPSE), 1 STONE1, 2 STONE1 + STONE1EX (eta = 2), 3 STONE2
+static const char* MODELN[4] = {"default", "stone1", "stone1ex", "stone2"};
+struct SetE { const char* name; std::vector<std::pair<int, double>> v; };      // (array, value); arrays not listed keep the table's own value
+static std::vector<SetE> setsE() {
+    return {
+        {"identity", {}},                                                             // all eight saturation arrays explicit = own (filled in runE)
+        {"swl-down", {{SWL, 0.10}}}, {"swl-down2", {{SWL, 0.12}}},
+        {"sgl-up", {{SGL, 0.04}}}, {"sgu-down", {{SGU, 0.78}}}, {"sgl-sgu", {{SGL, 0.02}, {SGU, 0.80}}},
+        {"critical-up", {{SWCR, 0.30}, {SOWCR, 0.22}, {SGCR, 0.12}, {SOGCR, 0.24}}},
+        {"critical-down", {{SWCR, 0.22}, {SOWCR, 0.18}, {SGCR, 0.08}, {SOGCR, 0.16}}},
+        {"swl-vertical", {{SWL, 0.10}, {KRG, 0.6}, {KRO, 0.95}, {PCG, 0.8}, {KRW, 0.5}}},
+        {"all-moved", {{SWL, 0.12}, {SWCR, 0.30}, {SWU, 0.95}, {SGL, 0.02}, {SGCR, 0.12}, {SGU, 0.80}, {SOWCR, 0.18}, {SOGCR, 0.16}}},
+    };
+}
+template <Opm::EclMultiplexerApproach A> static double swlOf(const Law::Params& p) { return p.template getRealParams<A>().Swl(); }
+template <Opm::EclMultiplexerApproach A, class F> static auto withReal(Law::Params& p, F&& f) { return f(p.template getRealParams<A>()); }
+
+static void runE(const std::vector<BaseB>& bases, int b, int mode, int set, int model, bool hyst) {
+    const std::string cs = "e " + std::to_string(b) + " " + std::to_string(mode) + " " + std::to_string(set) + " " + std::to_string(model) + " " + (hyst ? "1" : "0");
+    R->current(cs);
+    const auto sets = setsE();
+    const BaseB& B = bases[b];
+    const EndPts T = tableEndPts(B.w, B.g);
+    EndPts S = T; bool has[NARR] = {};
+    std::vector<std::pair<int, double>> arrs = sets[set].v;
+    if (arrs.empty()) for (int a : {SWL, SWCR, SWU, SGL, SGCR, SGU, SOWCR, SOGCR}) { EndPts t = T; arrs.push_back({a, fld(t, a)}); }
+    for (auto& [a, v] : arrs) { fld(S, a) = v; has[a] = true; }
+    if (!consistent(S, has)) { R->count("e_skipped_inconsistent"); return; }
+    const std::string K = std::string("C15:eps3p:") + MODELN[model] + (mode == 3 ? ":3pt" : ":2pt") + (hyst ? ":hyst:" : ":");
+
+    DeckSpec d; d.ncell = 2; d.nreg = 1; d.endscale = true; d.threept = mode == 3;
+    d.swof = {B.w}; d.sgof = {B.g}; d.satnum = "1 1";
+    if (model == 1 || model == 2) d.props_extra += "STONE1\n";
+    if (model == 2) d.props_extra += "STONE1EX\n 2.0 /\n";
+    if (model == 3) d.props_extra += "STONE2\n";
+    d.props_extra += "EQUALS\n";
+    for (auto& [a, v] : arrs) {
+        d.props_extra += std::string(" ") + ARRN[a] + " " + g17(v) + " 1 1 1 1 1 1 /\n";
+        if (hyst) d.props_extra += std::string(" I") + ARRN[a] + " " + g17(v) + " 1 1 1 1 1 1 /\n";
+    }
+    d.props_extra += "/\n";
+    if (hyst) { d.ehystr = "0.1 0 1.0 0.1 KR"; d.imbnum = "1 1"; }
+    World w;
+    try { w = build(deck_text(d), 2); }
+    catch (const std::exception& e) { R->violation(K + "setup-exception", std::string("building the material law manager threw: ") + e.what() + " [" + cs + "]", rp_(cs)); return; }
+    R->evaluations++;
+    Mgr& m = *w.mgr;
+    auto& P = m.materialLawParams(0);
+    const auto want = model == 0 ? Opm::EclMultiplexerApproach::Default : model == 3 ? Opm::EclMultiplexerApproach::Stone2 : Opm::EclMultiplexerApproach::Stone1;
+    if (P.approach() != want) { R->violation(K + "model-not-selected", std::string("the deck selects ") + MODELN[model] + " but the cell's parameters use approach " + std::to_string(int(P.approach())) + " [" + cs + "]", rp_(cs)); return; }
+    // the cell's two-phase laws (verified against the end-points in part b) and the connate water the three-phase law uses
+    const OWParams* owp; const GOParams* gop; double swlLaw, eta = 1.0;
+    if (model == 0) { auto& r = P.template getRealParams<Opm::EclMultiplexerApproach::Default>(); owp = &r.oilWaterParams(); gop = &r.gasOilParams(); swlLaw = r.Swl(); }
+    else if (model == 3) { auto& r = P.template getRealParams<Opm::EclMultiplexerApproach::Stone2>(); owp = &r.oilWaterParams(); gop = &r.gasOilParams(); swlLaw = r.Swl(); }
+    else { auto& r = P.template getRealParams<Opm::EclMultiplexerApproach::Stone1>(); owp = &r.oilWaterParams(); gop = &r.gasOilParams(); swlLaw = r.Swl(); eta = r.eta(); }
+    auto bad = [&](const std::string& key, const std::string& what) { R->violation(K + key, what + " (" + sets[set].name + ") [" + cs + "]", rp_(cs)); };
+    if (!close_(swlLaw, S.swl)) bad("three-phase-swl", "the three-phase law's connate water is " + g17(swlLaw) + ", the cell's SWL is " + g17(S.swl));
+    if (model == 2 && !close_(eta, 2.0)) bad("stone1-exponent", "STONE1EX 2.0 but eta = " + g17(eta));
+    const double swco = S.swl;                                        // the CELL's connate water
+    auto krw2 = [&](double sw) { return OWLaw::twoPhaseSatKrw(*owp, sw); };
+    auto krow2 = [&](double sw) { return OWLaw::twoPhaseSatKrn(*owp, sw); };
+    auto pcow2 = [&](double sw) { return OWLaw::twoPhaseSatPcnw(*owp, sw); };
+    auto krg2 = [&](double sg) { return GOLaw::twoPhaseSatKrn(*gop, (1.0 - swco) - sg); };
+    auto krog2 = [&](double sg) { return GOLaw::twoPhaseSatKrw(*gop, (1.0 - swco) - sg); };
+    auto pcgo2 = [&](double sg) { return GOLaw::twoPhaseSatPcnw(*gop, (1.0 - swco) - sg); };
+    const double krocw = krow2(swco);
+    // closed forms of the three models (ECLIPSE manual), evaluated with the scaled two-phase values and the cell's Swco
+    auto kroRef = [&](double sw, double sg) -> double {
+        if (model == 0) {
+            const double swp = std::max(sw, swco), so = 1.0 - sg - swp;
+            const double den = sg + swp - swco;
+            const double kog = GOLaw::twoPhaseSatKrw(*gop, so), kow = krow2(sg + swp);
+            if (den < 1e-5) return std::nan("");                      // regularised corner of the implementation, not judged
+            return (sg * kog + (swp - swco) * kow) / den;
+        }
+        if (model == 3) return std::max(krocw * ((krow2(sw) / krocw + krw2(sw)) * (krog2(sg) / krocw + krg2(sg)) - krw2(sw) - krg2(sg)), 0.0);
+        double beta = 1.0;
+        if (sw > swco) {
+            const double ssw = (sw - swco) / (1.0 - swco), ssg = sg / (1.0 - swco), sso = 1.0 - ssw - ssg;
+            if (!(ssw >= 1.0 || ssg >= 1.0)) beta = std::pow(sso / ((1.0 - ssw) * (1.0 - ssg)), eta);
+        }
+        return std::max(0.0, std::min(1.0, beta * krow2(sw) * krog2(sg) / krocw));
+    };
+    const double off = has[SWL] || set == 0 ? 0.0 : 0.0;
+    (void)off;
+    std::vector<double> obs;
+    // (a) two-phase boundaries and (c) interior, on the 41-level (Sw,Sg) triangle shifted onto the cell's SWL
+    for (int i = 0; i <= 40; ++i) for (int j = 0; i + j <= 40; ++j) {
+        const double sw = swco + (1.0 - swco) * i / 40.0, sg = (1.0 - swco) * j / 40.0;
+        if (sw + sg > 1.0 + 1e-12) continue;
+        Out o = evalAt(m, 0, sw, 1.0 - sw - sg, sg);
+        for (int p = 0; p < 3; ++p) { obs.push_back(o.kr[p]); obs.push_back(o.pc[p]); }
+        if (!close_(o.kr[0], krw2(sw))) { bad("krw-not-oil-water-curve", "krw(Sw=" + g17(sw) + ",Sg=" + g17(sg) + ") = " + g17(o.kr[0]) + ", scaled oil-water curve " + g17(krw2(sw))); }
+        if (!close_(o.kr[2], krg2(sg))) { bad("krg-not-gas-oil-curve", "krg(Sw=" + g17(sw) + ",Sg=" + g17(sg) + ") = " + g17(o.kr[2]) + ", scaled gas-oil curve at Sg (So = 1 - SWL_cell - Sg) " + g17(krg2(sg))); }
+        if (!close_(-o.pc[0], pcow2(sw), S.pcw * BAR)) bad("pcow-not-oil-water-curve", "pcow(Sw=" + g17(sw) + ") = " + g17(-o.pc[0]) + ", scaled curve " + g17(pcow2(sw)));
+        if (!close_(o.pc[2], pcgo2(sg), S.pcg * BAR)) bad("pcgo-not-gas-oil-curve", "pcgo(Sg=" + g17(sg) + ") = " + g17(o.pc[2]) + ", scaled curve " + g17(pcgo2(sg)));
+        const double ref = kroRef(sw, sg);
+        if (!std::isnan(ref) && !close_(o.kr[1], ref)) bad(j == 0 ? "kro-at-sg0-not-krow" : i == 0 ? "kro-at-swl-not-krog" : "kro-interior-closed-form", "kro(Sw=" + g17(sw) + ",Sg=" + g17(sg) + ") = " + g17(o.kr[1]) + ", closed form of the " + MODELN[model] + " model with the scaled two-phase curves and the cell's Swco gives " + g17(ref));
+        // boundaries, model independent: Sg = 0 -> krow(Sw); Sw = SWL_cell -> krog(Sg)
+        if (j == 0 && i > 0 && !close_(o.kr[1], krow2(sw))) bad("kro-at-sg0-not-krow", "kro(Sw=" + g17(sw) + ",Sg=0) = " + g17(o.kr[1]) + ", scaled krow " + g17(krow2(sw)));
+        if (i == 0 && j > 0 && !close_(o.kr[1], krog2(sg))) bad("kro-at-swl-not-krog", "kro(Sw=SWL_cell,Sg=" + g17(sg) + ") = " + g17(o.kr[1]) + ", scaled krog " + g17(krog2(sg)));
+    }
+    // (b) scaled gas-oil end-points in three-phase evaluation (Sw = the cell's SWL)
+    auto at = [&](double sg) { return evalAt(m, 0, swco, (1.0 - swco) - sg, sg); };
+    if (!close_(at(S.sgcr).kr[2], 0.0)) bad("krg-at-scaled-sgcr", "krg at the cell's SGCR " + g17(S.sgcr) + " is " + g17(at(S.sgcr).kr[2]) + ", expected 0");
+    if (!close_(at(S.sgu).kr[2], S.krg)) bad("krg-at-scaled-sgu", "krg at the cell's SGU " + g17(S.sgu) + " is " + g17(at(S.sgu).kr[2]) + ", expected " + g17(S.krg));
+    if (!close_(at(S.sgu).pc[2], S.pcg * BAR, S.pcg * BAR)) bad("pcgo-at-scaled-sgu", "pcgo at the cell's SGU is " + g17(at(S.sgu).pc[2]) + ", expected " + g17(S.pcg * BAR));
+    if (!close_(at((1.0 - swco) - S.sogcr).kr[1], 0.0)) bad("kro-at-scaled-sogcr", "kro at Sw = SWL_cell, So = SOGCR is " + g17(at((1.0 - swco) - S.sogcr).kr[1]) + ", expected 0");
+    if (!close_(evalAt(m, 0, 1.0 - S.sowcr, S.sowcr, 0.0).kr[1], 0.0)) bad("kro-at-scaled-sowcr", "kro at Sg = 0, So = SOWCR is " + g17(evalAt(m, 0, 1.0 - S.sowcr, S.sowcr, 0.0).kr[1]) + ", expected 0");
+    if (!close_(evalAt(m, 0, S.swcr, 1.0 - S.swcr, 0.0).kr[0], 0.0)) bad("krw-at-scaled-swcr", "krw at the cell's SWCR is " + g17(evalAt(m, 0, S.swcr, 1.0 - S.swcr, 0.0).kr[0]) + ", expected 0");
+    // hysteresis: the gas-oil turning point after an update at a three-phase state is 1 - SWL_cell - Sg for every model
+    if (hyst) {
+        const double sw = swco + 0.2, sg = 0.25;
+        FS fs; fs.setSaturation(0, sw); fs.setSaturation(1, 1.0 - sw - sg); fs.setSaturation(2, sg);
+        m.updateHysteresis(fs, 0);
+        const double goT = gop->krnSwMdc(), owT = owp->krnSwMdc();
+        if (!close_(goT, (1.0 - swco) - sg)) bad("hysteresis-gas-oil-turning-point", "after updateHysteresis at Sg = 0.25 the gas-oil turning point is " + g17(goT) + ", expected 1 - SWL_cell - Sg = " + g17((1.0 - swco) - sg));
+        if (!close_(owT, sw + sg)) bad("hysteresis-oil-water-turning-point", "after updateHysteresis the oil-water turning point is " + g17(owT) + ", expected 1 - So = " + g17(sw + sg));
+        // Carlson with identical curves: nothing changes (kr on the boundaries)
+        for (int k = 0; k <= 40; ++k) {
+            const double sg2 = (1.0 - swco) * k / 40.0;
+            if (!close_(at(sg2).kr[2], krg2(sg2))) { bad("hysteresis-identical-curves-change-krg", "krg(Sg=" + g17(sg2) + ") changed after an update although IMBNUM = SATNUM and I-arrays = arrays"); break; }
+        }
+    }
+    R->observe(vf::fnv(obs.data(), obs.size() * sizeof(double)));
+    R->count("e_cases");
+    if (R->shard == 0 && R->samples.size() < 9 && model == 3 && set == 1) R->sample_str(cs + " : " + d.props_extra);
+}
+static void partE(bool thorough) {
+    const auto bases = basesB(thorough);
+    const int nb = thorough ? (int)bases.size() : 2;
+    const int nsets = setsE().size();
+    for (int b = 0; b < nb; ++b) for (int mode = 2; mode <= 3; ++mode) for (int set = 0; set < nsets; ++set) for (int model = 0; model < 4; ++model) for (int hyst = 0; hyst < 2; ++hyst) {
+        if (R->timed_out()) return;
+        if (R->mine()) runE(bases, b, mode, set, model, hyst != 0);
+    }
+}
+
 // ============================================================ main =========
 int main(int argc, char** argv) {
     vf::Run run("C15", argc, argv); R = &run;
@@ -1280,12 +1424,14 @@ int main(int argc, char** argv) {
     run.rule = std::string("(a) every combination of the SWOF/SGOF node-layout alphabet {connate water, critical != connate, residual oil, 1-2 interior nodes, end-point kr < 1, 3 pc shapes") + (T ? ", Swu/Sgu below maximum" : "") + "}, 3-5 nodes, two regions per deck (plus single-region and FIELD-unit decks), three decks per case on the same nodes: family I SWOF/SGOF, family II SWFN/SGFN/SOF3, family I SWOF/SLGOF: node reproduction, bracketing by neighbouring nodes + monotone + range on the 101-point lattice, all three decks equal (1e-12) on the 1-D lattices and the 21-level (Sw,Sg) triangle; per deck and region the raw table end-points and function values of satfunc::getRawTableEndpoints/getRawFunctionValues (SWL SWCR SWU SGL SGCR SGU SOWCR SOGCR KRW KRWR KRO KRORW KRORG KRG KRGR PCW PCG) and the defaulted fieldProps arrays incl. the I-arrays == the values read off the generated nodes (critical oil in water != critical oil in gas, critical != connate, maxima at different saturations in most layouts); every 8th combination (thorough: the whole quick alphabet) again on an ENDSCALE deck (two-/three-point alternating) with all 17 arrays present but defaulted in the checked cells (identity); two-phase oil/water (SWOF | SWFN+SOF2) and oil/gas (SGOF | SGFN+SOF2) single-table layouts x {no ENDSCALE, ENDSCALE two-point, three-point with defaulted arrays} with the same oracles; "
                "(b) ENDSCALE: all subsets of size <= " + (T ? "3" : "2") + " of 17 end-point arrays x 2 shifted values each in one cell, two- and three-point (SCALECRS) scaling, " + (T ? "6" : "3") + " base tables: scaled end-points -> table end-points (saturation maps, kr = 0 at scaled critical, kr = scaled max at scaled maximum, KR*R at the displacing critical saturation with three-point scaling, PCW/PCG), explicit and defaulted own end-points are the identity (1e-12) on the same lattices, scaledToUnscaledSat{Krw,Krn,Pc} and unscaledToScaledSat{Krw,Krn,Pc} are mutual inverses (1e-12) on 65 points between the outer anchors in both directions; every case as family I and family II deck (cases with <= " + (T ? "2" : "1") + " arrays also SWOF/SLGOF): all checks per deck, the manager's scaled end-point info and the fieldProps arrays of all four cells == given / own values, raw table end-points of both regions, and all four cells equal between the decks (1e-12; the moved cell on a lattice offset by 0.00371); "
                "(c) BFS over updateHysteresis(fluidState, cell) histories to depth " + (T ? "6" : "5") + " (closed earlier: frontier 0), events = all points of the 9-level (Sw,Sg) triangle with Sw >= connate water (36-45 events)" + (T ? ", and again the 17-level triangle (120-153 events)" : "") + ", EHYSTR models " + (T ? "0-4" : "0-3") + " x {KR,BOTH} x " + (T ? "3" : "2") + " drainage tables x 4 IMBNUM choices (same region, copied region, 2 genuine imbibition tables), state key = all hysteresis getters of both two-phase laws; per transition: turning points (krnSwMdc, krwSwMdc, pcSwMdc) = running extremes of the history, krn at the current saturation == drainage curve while the saturation never reversed; per distinct state: krn == drainage curve (bitwise, manager without hysteresis) on the drainage side of the turning point, continuity at the reversal point (1e-10, one ulp past it), krn monotone on the 65-point lattice, Carlson + identical curves => all kr unchanged (1e-12); "
-               "(d) product of (b) and (c): the same BFS and per-state oracles in SCALED saturation on ENDSCALE decks, EHYSTR models " + (T ? "0-4 x {KR,BOTH}" : "0-3 x KR") + " x {two-point, three-point SCALECRS} x 6 per-cell end-point sets {identity (control), critical saturations up, critical down, connate water down, maxima down, all moved} given as drainage arrays and I-arrays x 2 imbibition choices {IMBNUM = SATNUM with I-arrays = arrays (identical curves), genuine imbibition table with its own moved I-arrays}; events = oil-water moves (Sg = 0) and gas-oil moves (Sw = the cell's SWL) on the 17-level lattice inside the cell's scaled domain" + (T ? " plus three three-phase points, and again on the 33-level lattice (KR)" : "") + " (table nodes on 1/8, moved nodes 1/16-1/8 away, so reversal points fall between the table's and the cell's nodes: counted in d_states_turning_point_between_table_and_cell_mid_node_*); drainage oracle = manager of the same deck without hysteresis (same cell, same end-points); per cell the drainage and imbibition saturation maps are mutual inverses";
+               "(d) product of (b) and (c): the same BFS and per-state oracles in SCALED saturation on ENDSCALE decks, EHYSTR models " + (T ? "0-4 x {KR,BOTH}" : "0-3 x KR") + " x {two-point, three-point SCALECRS} x 6 per-cell end-point sets {identity (control), critical saturations up, critical down, connate water down, maxima down, all moved} given as drainage arrays and I-arrays x 2 imbibition choices {IMBNUM = SATNUM with I-arrays = arrays (identical curves), genuine imbibition table with its own moved I-arrays}; events = oil-water moves (Sg = 0) and gas-oil moves (Sw = the cell's SWL) on the 17-level lattice inside the cell's scaled domain" + (T ? " plus three three-phase points, and again on the 33-level lattice (KR)" : "") + " (table nodes on 1/8, moved nodes 1/16-1/8 away, so reversal points fall between the table's and the cell's nodes: counted in d_states_turning_point_between_table_and_cell_mid_node_*); drainage oracle = manager of the same deck without hysteresis (same cell, same end-points); per cell the drainage and imbibition saturation maps are mutual inverses; "
+               "(e) three-phase oil relperm model {default (ECLIPSE), STONE1, STONE1 + STONE1EX 2.0, STONE2} x ENDSCALE {two-point, three-point} x " + (T ? "6" : "2") + " base tables x 10 end-point sets in one cell {identity (all eight saturation arrays = own), SWL moved (2 values), SGL moved, SGU moved, SGL+SGU, critical saturations up, down, SWL + KRG/KRO/KRW/PCG, all moved} x {no hysteresis, Carlson KR with I-arrays = arrays}: through relativePermeabilities/capillaryPressures on the 41-level (Sw,Sg) triangle anchored at the cell's SWL: krw/pcow == the cell's scaled oil-water curves and krg/pcgo == the scaled gas-oil curves at So = 1 - SWL_cell - Sg for every model (1e-12), kro == krow(Sw) at Sg = 0 and == krog(Sg) at Sw = SWL_cell, kro in the interior == the manual's closed form of the model (default: saturation-weighted, Stone 1 with exponent, Stone 2) evaluated with the scaled two-phase values and the CELL's connate water; the three-phase law's Swl == the cell's SWL; krg = 0 at the cell's SGCR, = KRG/table maximum at SGU, pcgo = PCG at SGU, kro = 0 at SOGCR/SOWCR, krw = 0 at SWCR; with hysteresis the gas-oil turning point after updateHysteresis at a three-phase state == 1 - SWL_cell - Sg and identical curves change nothing";
     run.assumptions = {"reference model of (a): piecewise-linear interpolation of the generated nodes; family II tables are generated on the family I nodes (SOF3 on the union of both node sets, interpolated values)",
                        "table end-points of (b) are read off the nodes by the harness (last kr = 0 node etc.); anchors of the two/three-point maps are those of the ECLIPSE manual (SWCR, 1-SOWCR-SGL, SWU; SWL+SGL, SWCR+SGL, 1-SOWCR; SGCR, 1-SOGCR-SWL, SGU; SOGCR, 1-SGCR-SWL, 1-SWL-SGL; pc: SWL,SWU / SGL,SGU); shifted values are chosen so that every combination stays ordered",
                        "three-phase oil relperm: the default (Baker-type) model; krow is observed at Sg = 0, krog at Sw = Swco, or through the two-phase law of the cell's parameter object",
                        "(c) states are restored by assigning a saved copy of the two hysteresis parameter objects of a cell; every new state is re-derived by replaying its history on a fresh cell (or from the pristine snapshot once the 191 fresh cells of a configuration are used up); invariants of a state are evaluated at its first visit and at every 32nd transition (same key must give the same behaviour hash); events below connate water are outside the tables' domain and excluded; imbibition tables share connate saturation and the maximum non-wetting relperm with the drainage table",
                        "pc hysteresis (always Killough in opm) is exempt from the Carlson no-change claim",
+                       "(e) the two-phase curves are taken from the cell's own two-phase parameter objects (their end-point behaviour is judged in (b)) at saturations computed by the harness from the cell's SWL, never from the three-phase law's Swl; residual oil Som of Stone 1 is 0 as in opm; the default model's regularised corner (Sg + Sw - Swco < 1e-5) is not compared with the closed form",
                        "decks of (a) give IMBNUM = SATNUM explicitly: fieldProps' IMBNUM defaults to 1 (not SATNUM), so the I-arrays of a deck without IMBNUM default from region 1; two-phase oil/gas with SLGOF alone is refused by the library (findMaxKro consults SGOF only) and is not in the alphabet; with KRWR/KRORW/KRGR/KRORG and two-point horizontal scaling the scaled curve jumps at the displacing critical saturation, so the family comparison of the moved cell uses an offset lattice (no lattice point on an end-point)",
                        "(d) scaling 'none' x hysteresis is part (c); SGL is not moved and gas events stay at Sg <= SGU of the cell (a moved SGL or Sg beyond SGU creates an in-domain maximum plateau of the non-wetting relperm, i.e. the known Carlson plateau finding); no vertical (KR*/PC*) arrays in (d); the scanning curve is NOT required to lie between the drainage and the imbibition curve (not in the property text and not true for Carlson's shifted curve with non-parallel tables)"};
 
@@ -1305,6 +1451,9 @@ int main(int argc, char** argv) {
             std::vector<std::pair<int, int>> sub;
             if (s != "-") { std::istringstream t(s); std::string tok; while (std::getline(t, tok, ',')) { int a = 0, v = 0; std::sscanf(tok.c_str(), "%d:%d", &a, &v); sub.push_back({a, v}); } }
             runB(bases, b, mode, sub);
+        } else if (part == "e") {
+            int b, mode, set, model, hy; ss >> b >> mode >> set >> model >> hy;
+            runE(basesB(true), b, mode, set, model, hy != 0);
         } else if (part == "d") {
             CfgD c{}; std::string flag, hs; ss >> c.model >> flag >> c.mode >> c.eset >> c.imb >> c.levels >> hs; c.both = flag == "BOTH";
             std::vector<int> hist; if (hs != "-" && !hs.empty()) { std::istringstream q(hs); std::string tok; while (std::getline(q, tok, ',')) hist.push_back(std::atoi(tok.c_str())); }
@@ -1330,7 +1479,8 @@ int main(int argc, char** argv) {
     partA(T); run.notes["shard0_seconds_part_a"] = std::to_string(run.elapsed() - t); t = run.elapsed();
     partB(T); run.notes["shard0_seconds_part_b"] = std::to_string(run.elapsed() - t); t = run.elapsed();
     partC(T); run.notes["shard0_seconds_part_c"] = std::to_string(run.elapsed() - t); t = run.elapsed();
-    partD(T); run.notes["shard0_seconds_part_d"] = std::to_string(run.elapsed() - t);
+    partD(T); run.notes["shard0_seconds_part_d"] = std::to_string(run.elapsed() - t); t = run.elapsed();
+    partE(T); run.notes["shard0_seconds_part_e"] = std::to_string(run.elapsed() - t);
     run.count("worlds_built", g_worlds);
     return run.finish();
 }
